@@ -52,10 +52,17 @@ class Cmd(object):
                 return getattr(tab, k)
         raise KeyError(self.key)
 
-    def build(self, opcode, a):
-        """construct through the class; `a` maps library argument names to values."""
+    def build(self, opcode, a, positional=False):
+        """construct through the class; `a` maps library argument names to values.  With positional=True the
+        leading optional arguments that are supplied are passed by position as well (the order of `opt` is the
+        order of the constructor's signature, which is part of the API)."""
         args = [a[p] if p in a else self.defaults[p] for p in self.pos]
         kw = {k: a[k] for k in self.opt if k in a}
+        if positional and not self.ctor_fixed:
+            for k in self.opt:
+                if k not in kw:
+                    break
+                args.append(kw.pop(k))
         kw.update(self.ctor_fixed)
         return self.cls(opcode, *args, **kw)
 
